@@ -872,6 +872,25 @@ func FlowSet(v ssa.Value) map[ssa.Value]bool {
 				if fv, ok := cell.(*ssa.FreeVar); ok {
 					cell = c18Binding(fv)
 				}
+				if pp, isParam := cell.(*ssa.Parameter); isParam {
+					// stored through a pointer parameter (a named result handed to a helper as &retErr): the variable
+					// is the one every call/defer site passes
+					f := pp.Parent()
+					idx := -1
+					for i, q := range f.Params {
+						if q == pp {
+							idx = i
+						}
+					}
+					for _, site := range sitesOf(f) {
+						args := site.Common().Args
+						if site.Common().StaticCallee() == f && idx >= 0 && idx < len(args) {
+							if al, ok := args[idx].(*ssa.Alloc); ok {
+								cell = al
+							}
+						}
+					}
+				}
 				a, ok := cell.(*ssa.Alloc)
 				if !ok {
 					continue
